@@ -107,6 +107,16 @@ def check(case):
     require(psi_s.shape == (len(idx),) and close(psi_s.real, psi.real[idx], 1e-12, 1e-300) and close(psi_s.imag, psi.imag[idx], 1e-12, 1e-300),
             "callform:sub-batch", "psi of a sub-batch differs from the corresponding entries of psi(space)")
     require(close(state.probability(sub).double(), prob[idx], 1e-12), "callform:sub-batch-prob", "probability of a sub-batch differs")
+    # rank-3 batches (the form the library's own rotation code uses): psi of a (a, b, n) tensor is (2, a, b)
+    if len(idx) >= 2:
+        m = len(idx) // 2 * 2
+        v3 = space[idx[:m]].reshape(2, m // 2, n)
+        p3 = state.psi(v3)
+        require(tuple(p3.shape) == (2, 2, m // 2), "callform:rank3-shape", f"psi of a (2,{m // 2},{n}) batch has shape {tuple(p3.shape)}")
+        p3c = R.lib_to_c(p3).reshape(-1)
+        require(close(p3c.real, psi.real[idx[:m]], 1e-12, 1e-300) and close(p3c.imag, psi.imag[idx[:m]], 1e-12, 1e-300), "callform:rank3",
+                "psi of a rank-3 batch differs from the corresponding entries of psi(space)")
+        require(close(state.probability(v3).double().reshape(-1), prob[idx[:m]], 1e-12), "callform:rank3-prob", "probability of a rank-3 batch differs")
     k = case["row"]
     v1 = space[k]
     p1 = state.psi(v1)
